@@ -25,7 +25,7 @@ VALID_OPTS = ["cvt:pre:all=0", "cvt:quadcon=0", "cvt:bigM=1e4", "sol:chk:mode=10
               "alg:relax=1", "cvt:sos2=0", "mip:basis=3", "alg:start=3", "sol:stub=altstub", "cvt:mip:eps=0.001", "multiobj=1", "objno=0",
               "lim:time=5", "tech:writegraph=graph.jsonl", "wantsol=1", "wantsol=2", "wantsol=8", "sol:count=1", "sol:stub=s"]
 BAD_OPTS = ["foo=1", "cvt:nosuch=1", "tech:intA=abc", "cvt:pre:all=x", "dblA=1e", "objno=-1", "objno=99", "wantsol=-5", "=", "intA", "strA",
-            "cvt:bigM", "sol:chk:mode=notanumber", "acc:abs=7", "acc:nosuchcon=1", "intA=99999999999999999999", "dblA=1e999", "'", "\"abc"]
+            "cvt:bigM", "sol:chk:mode=notanumber", "acc:nosuchcon=1", "intA=99999999999999999999", "dblA=1e999", "'", "\"abc"]
 
 
 @st.composite
@@ -167,6 +167,11 @@ def judge_raw(cobj, res, model_text="", labels=()):
     if r.timed_out:
         res.inconclusive += 1
         res.label("guard-expired")
+        return None
+    if "out-of-memory" in r.err or "allocation-size-too-big" in r.err or "requested allocation size" in r.err:
+        # a hostile count made the reader reserve more than the sanitizer's allocator allows: load noise, not a verdict
+        res.inconclusive += 1
+        res.label("allocator-limit")
         return None
     if r.signal or r.sanitizer:
         v = ("crash", "driver died: rc=%s %s" % (r.rc, common.crash_head(r.err)))
